@@ -472,12 +472,22 @@ def run(m, fname, args, depth=0):
             env_set = lambda v: env.__setitem__(dst, v)
             if op == 'alloca':
                 ty = p.type(); env[dst] = m.alloc(sizeof(m.mod, ty), 16); continue
+            if op == 'fence':
+                continue        # single thread of execution: ordering only
+            if op == 'atomicrmw':   # single thread: read-modify-write in one step
+                p.eat('volatile'); rop = p.next(); pty = p.type(); a = m.const(p, pty, env); p.expect(','); ty = p.type(); v = m.const(p, ty, env)
+                if not isinstance(a, int): raise EngineLimit('symbolic address')
+                n = resolve(m.mod, ty).n; oldv = m.load(a, ty)
+                if rop == 'xchg': nv = v
+                elif rop in ('add', 'sub', 'and', 'or', 'xor'): nv = binop(m, rop, n, oldv, v, ())
+                else: raise EngineLimit('atomicrmw ' + rop)
+                m.store(a, ty, nv); env[dst] = oldv; continue
             if op == 'load':
-                p.eat('volatile'); ty = p.type(); p.expect(','); pty = p.type(); a = m.const(p, pty, env)
+                p.eat('atomic'); p.eat('volatile'); ty = p.type(); p.expect(','); pty = p.type(); a = m.const(p, pty, env)
                 if not isinstance(a, int): raise EngineLimit('symbolic address')
                 env[dst] = m.load(a, ty); continue
             if op == 'store':
-                p.eat('volatile'); ty = p.type(); v = m.const(p, ty, env); p.expect(','); pty = p.type(); a = m.const(p, pty, env)
+                p.eat('atomic'); p.eat('volatile'); ty = p.type(); v = m.const(p, ty, env); p.expect(','); pty = p.type(); a = m.const(p, pty, env)
                 if not isinstance(a, int): raise EngineLimit('symbolic address')
                 m.store(a, ty, v); continue
             if op == 'getelementptr':
